@@ -80,6 +80,7 @@ type world struct {
 	t0       []time.Time // start of call k
 	obs      [][]nodeObs // [call][node]
 	inflight atomic.Int64
+	cur      atomic.Int64 // index of the call in progress (calls are sequential)
 }
 
 func (w *world) sinceMs(k int) float64 {
@@ -560,6 +561,25 @@ func (d *syncNode) SyncCommitteeContribution(ctx context.Context, opts *api.Sync
 
 type propNode struct{ node }
 
+// NodeClient makes the double an eth2client.NodeClientProvider, as the real
+// HTTP client is.  The request carries nothing that identifies the call; it is
+// made synchronously by the call in progress.
+func (d *propNode) NodeClient(_ context.Context) (*api.Response[string], error) {
+	k := int(d.w.cur.Load())
+	if k < 0 || k >= len(d.w.steps) {
+		return nil, errors.New("request is not part of the scripted history")
+	}
+	n := d.spec(k)
+	switch n.ClientErr {
+	case "":
+	case "api503":
+		return nil, &api.Error{Method: http.MethodGet, Endpoint: "/eth/v1/node/version", StatusCode: http.StatusServiceUnavailable, Data: []byte("syncing")}
+	default:
+		return nil, errors.New("client is not active")
+	}
+	return &api.Response[string]{Data: n.Client, Metadata: map[string]any{}}, nil
+}
+
 func (d *propNode) Proposal(ctx context.Context, opts *api.ProposalOpts) (*api.Response[*api.VersionedProposal], error) {
 	k := d.w.c.callOfSlot(opts.Slot)
 	if err := d.wait(ctx, k); err != nil {
@@ -612,19 +632,24 @@ func (d *blockNode) SignedBeaconBlock(ctx context.Context, opts *api.SignedBeaco
 }
 
 // ---------------------------------------------------------------------------
-// Head-slot cache double: pool value i's head root is at dutySlot-Dist, or
+// Head-slot cache double: pool value i's head root is Dist slots before the first requested slot, or
 // unknown to the cache (Dist < 0).
 
 type cacheDouble struct{ c *Case }
 
-func (cd *cacheDouble) BlockRootToSlot(_ context.Context, root phase0.Root) (phase0.Slot, error) {
+func (cd *cacheDouble) BlockRootToSlot(ctx context.Context, root phase0.Root) (phase0.Slot, error) {
 	i := int(root[0]) - 1
 	if i < 0 || i >= len(cd.c.Pool) || root[31] != 0xc7 {
 		return 0, errors.New("unknown root")
 	}
 	dist := headDist(cd.c, i)
 	if dist < 0 {
-		return 0, errors.New("scripted cache miss")
+		return 0, errors.New("scripted: block not known to the node")
+	}
+	// like services/cache/standard: a hit is answered from memory whatever
+	// the context; a miss is fetched with the context given
+	if cd.c.Pool[i].Miss && ctx.Err() != nil {
+		return 0, fmt.Errorf("failed to obtain block header: %w", ctx.Err())
 	}
 	return phase0.Slot(cd.c.slot(0) - dist), nil
 }
